@@ -10,7 +10,9 @@ TB = ("Trusted base: Lean 4.33 kernel; axioms propext/Classical.choice/Quot.soun
 
 HIST_NOTE = TB + (" The sequential model M1/M3 (lean/TriompheModel/Model/{Heap,Handles,Ops}.lean) is hand-written, mirroring the Rust function by function, "
                   "and is tied to the code by the history correspondence (same op lines on the Lean driver and on the real crate; outputs compared; "
-                  "property monitors evaluated on the implementation's own trace). Payload universe of the correspondence: the harness's identity-tracked types.")
+                  "property monitors evaluated on the implementation's own trace), in the dev and the release profile, with sized, over-aligned, dyn and zero-sized "
+                  "payloads (a ZST build of the harness), comparison/hash/format ops with armed panics, scripted panics in every user callback. "
+                  "Payload universe of the correspondence: the harness's identity-tracked types.")
 SCHED_NOTE = " Schedule half: assumed, not derived: Consistent (RC11/C++20 fragment for a location written only by RMWs), CoRW, ViaBorn, Protocol (safe-Rust ownership discipline)."
 
 
